@@ -4595,3 +4595,40 @@ func configFileNamedVerbatim(c *Ctx, rule string) {
 	}
 	c.AtLeast(rule, "git config --file invocations", n, 3)
 }
+
+// alreadySupportedMeansTracked (C19): `track` leaves .gitattributes alone when the pattern is "already supported".
+// A known line counts only if it actually assigns the LFS filter: the skip is taken only behind `known.Tracked`.
+// A line that unsets the filter or sets another one (`*.ex -filter`, `filter=other`) must be replaced, or Git goes
+// on reporting no LFS filter for the pattern after `git lfs track`.
+func alreadySupportedMeansTracked(c *Ctx, rule string) {
+	p := c.P
+	fn := p.Fn("commands", "trackCommand")
+	if fn == nil {
+		c.Missing(rule, "commands.trackCommand", "not found")
+		return
+	}
+	pass := PassEdges(fn, func(cond ssa.Value) (bool, bool) {
+		if IsLoadOfField(cond, "git.AttributePath", "Tracked") {
+			return true, true
+		}
+		return false, false
+	})
+	n := 0
+	for _, ci := range CallsIn(fn, "commands.Print") {
+		a := CallArgs(ci.Common())
+		isMsg := false
+		for _, l := range append(p.LeavesNoFields(a[0], nil), a[0]) {
+			if s, ok := ConstString(l); ok && strings.Contains(s, "already supported") {
+				isMsg = true
+			}
+		}
+		if !isMsg {
+			continue
+		}
+		n++
+		g, where := Guarded(fn.Blocks[0], ci, pass, noReturnCommands)
+		c.Check(g && nonVacuous(pass), rule, "track:already-supported-only-if-tracked#"+itoa(n), p.InstrPos(ci), "a pattern is reported as already supported only when a known line assigns it the LFS filter",
+			"track can report a pattern as already supported although the known line does not assign the LFS filter ("+where+"): with an existing `pattern -filter` (or filter=other) line nothing is written and Git keeps reporting no LFS filter for the pattern")
+	}
+	c.AtLeast(rule, "`already supported` reports in trackCommand", n, 1)
+}
